@@ -272,6 +272,50 @@ def c03_6(ctx):
     return out
 
 
+def _sqrt_cells(ctx):
+    """S256Field.sqrt evaluated on quadratic residues and non-residues modulo P (decided by Euler's criterion in the rule): for a residue the
+    result is a field element r with r*r = x, namely x^((P+1)/4) -- the root the lift functions then choose the parity of; for a non-residue
+    it raises ValueError.  Bounded evaluation: 0, 1, small values, P-1, P-2, squares of large values and their non-residue neighbours.
+    None when outside the evaluator's subset."""
+    from sa.cells import Evaluator, Obj, Raised, Undecided
+    spec = "pecc:S256Field.sqrt"
+    mod, fn = rl.get(ctx, spec)
+    P_ = SECP256K1["P"]
+    xs = [0, 1, 2, 3, 4, 5, 6, 7, 8, 9, P_ - 1, P_ - 2, P_ - 3, (1 << 255) % P_, pow(0x1234567890ABCDEF, 2, P_), pow(P_ - 12345, 2, P_)]
+    xs += [(x + 1) % P_ for x in xs[-2:]] + [0x79BE667EF9DCBBAC55A06295CE870B07029BFCDB2DCE28D959F2815B16F81798]
+    seen = set()
+    try:
+        for x in xs:
+            ctx.count("cells")
+            residue = x == 0 or pow(x, (P_ - 1) // 2, P_) == 1
+            seen.add(residue)
+            me = Obj("pecc", "S256Field", {"num": x, "prime": P_})
+            try:
+                r = Evaluator(ctx.repo, max_steps=2000000).call(spec, [], self_obj=me)
+            except Raised as e:
+                if residue:
+                    return [ctx.bad(spec, "x = %#x is a square modulo P and sqrt() raises %s" % (x, e.name), fn, mod, key="sqrt-check")]
+                if e.name != "ValueError":
+                    return [ctx.bad(spec, "x = %#x has no square root and sqrt() raises %s instead of ValueError" % (x, e.name), fn, mod, key="sqrt-check")]
+                continue
+            if not residue:
+                return [ctx.bad(spec, "x = %#x is not a square modulo P and sqrt() returns a value instead of raising: a point is lifted from an x that is not on the curve" % x,
+                                fn, mod, key="sqrt-check")]
+            num = r.attrs.get("num") if isinstance(r, Obj) else None
+            if not isinstance(num, int) or num * num % P_ != x:
+                return [ctx.bad(spec, "sqrt(%#x) returns %s, whose square is not x" % (x, ("%#x" % num) if isinstance(num, int) else r), fn, mod, key="sqrt-check")]
+            if num != pow(x, (P_ + 1) // 4, P_):
+                return [ctx.bad(spec, "sqrt(%#x) is not x^((P+1)/4) (the other root): the parity choice of the lift functions is relative to that root" % x, fn, mod, key="sqrt-exp")]
+            if not (isinstance(r, Obj) and (r.mod, r.cls) in [(m_, c_) for m_, c_ in ctx.repo.mro(r.mod, r.cls)] and r.cls in ("S256Field", "FieldElement")):
+                raise Undecided("class of the root")
+    except Undecided:
+        return None
+    if seen != {True, False}:
+        raise AnalysisError("sqrt cells: residues and non-residues not both present")
+    return [ctx.ok(spec, "non-residues raise ValueError, residues give a root (%d values evaluated)" % len(xs), fn, mod, key="sqrt-check"),
+            ctx.ok(spec, "the root is x^((P+1)/4)", fn, mod, key="sqrt-exp")]
+
+
 def c03_7(ctx):
     """square-root failure raises; points lifted from x use sqrt()"""
     out = []
@@ -286,15 +330,19 @@ def c03_7(ctx):
                     if sq:
                         return BAD_TRUE if isinstance(t.ops[0], ast.NotEq) else BAD_FALSE
         return None
-    out.append(rl.guard(ctx, "pecc:S256Field.sqrt", match, what="s*s != self raises (no square root)", key="sqrt-check"))
-    # exponent (P+1)//4
-    mod, fn = rl.get(ctx, "pecc:S256Field.sqrt")
-    f = Folder(ctx.repo, mod.name)
-    exps = [f.fold(b.right) for b in ast.walk(fn) if isinstance(b, ast.BinOp) and isinstance(b.op, ast.Pow)]
-    if (SECP256K1["P"] + 1) // 4 in exps:
-        out.append(ctx.ok("pecc:S256Field.sqrt", "candidate root is self ** ((P+1)//4)", fn, mod, key="sqrt-exp"))
+    cells = _sqrt_cells(ctx)
+    if cells is not None:
+        out += cells
     else:
-        out.append(ctx.bad("pecc:S256Field.sqrt", "square-root exponent is not (P+1)//4: %s" % [hex(e) if isinstance(e, int) else e for e in exps], fn, mod, key="sqrt-exp"))
+        out.append(rl.guard(ctx, "pecc:S256Field.sqrt", match, what="s*s != self raises (no square root)", key="sqrt-check"))
+        # exponent (P+1)//4
+        mod, fn = rl.get(ctx, "pecc:S256Field.sqrt")
+        f = Folder(ctx.repo, mod.name)
+        exps = [f.fold(b.right) for b in ast.walk(fn) if isinstance(b, ast.BinOp) and isinstance(b.op, ast.Pow)]
+        if (SECP256K1["P"] + 1) // 4 in exps:
+            out.append(ctx.ok("pecc:S256Field.sqrt", "candidate root is self ** ((P+1)//4)", fn, mod, key="sqrt-exp"))
+        else:
+            out.append(ctx.bad("pecc:S256Field.sqrt", "square-root exponent is not (P+1)//4: %s" % [hex(e) if isinstance(e, int) else e for e in exps], fn, mod, key="sqrt-exp"))
     for spec in ("pecc:S256Point.parse_sec", "pecc:S256Point.parse_xonly"):
         mod, fn = rl.get(ctx, spec)
         cfg = cfg_of(fn)
